@@ -12,8 +12,9 @@ CONSTANTS MaxRows, MaxBurst, MaxSteps, Touch,      \* bounds of the machine
 (***************************************************************************)
 VARIABLES s, rows, det, phase, burst, hist, steps,
           total, most, adds,         \* statistics tab: aircraft ever added, largest simultaneous count; adds = history of arrivals
-          drawn                      \* the tab that was drawn last: the mouse handler works with the geometry of that draw
-vars == <<s, rows, det, phase, burst, hist, steps, total, most, adds, drawn>>
+          drawn,                     \* the tab that was drawn last: the mouse handler works with the geometry of that draw
+          sigs                       \* history: in which kind of state each step was taken (for choosing the behaviours to replay)
+vars == <<s, rows, det, phase, burst, hist, steps, total, most, adds, drawn, sigs>>
 View == <<s, rows, det, phase, burst, steps, total, most, adds, drawn>>
 
 RX == [lat |-> 52000000, lon |-> 4000000]
@@ -23,10 +24,12 @@ Btn == IF Touch /\ drawn \in {0, 1} THEN BtnOn ELSE << >>
 LeftEdge == IF Touch /\ drawn \in {0, 1} THEN 11 ELSE 1
 
 Init == /\ s = Init0 /\ rows = 0 /\ det = << >> /\ phase = "draw" /\ burst = 0 /\ hist = << >> /\ steps = 0
-        /\ total = 0 /\ most = 0 /\ adds = 0 /\ drawn = 0
+        /\ total = 0 /\ most = 0 /\ adds = 0 /\ drawn = 0 /\ sigs = << >>
 
 Alive == ~s.panicked /\ ~s.quit /\ steps < MaxSteps
-Step(tag) == /\ steps' = steps + 1 /\ hist' = Append(hist, tag)
+\* the kind of state a step starts from: tab, selection (none / on a row / beyond the rows), rows, tab drawn last
+Sig == <<s.tab, IF s.sel = NoSel THEN 0 ELSE IF s.sel < rows THEN 1 ELSE 2, rows, drawn>>
+Step(tag) == /\ steps' = steps + 1 /\ hist' = Append(hist, tag) /\ sigs' = Append(sigs, Sig)
 
 Draw == /\ Alive /\ phase = "draw"
         /\ s' = DrawStep(s, rows) /\ phase' = "events" /\ burst' = 0 /\ drawn' = s.tab
